@@ -14,7 +14,14 @@ def make_base(ctx):
     t2, _ = gen.mutate_tree(ctx.rng, t1)
     for t in (t0, t1, t2):
         t["c"].setdefault("keep", {"k": "f", "data": "6b656570", "mode": 0o644, "mtime": 10**18})
+        # a directory whose own entry and whose children's entries can land in different index hunks
+        t["c"].setdefault("dir", {"k": "d", "mode": 0o750, "mtime": 10**18 + 1, "c": {
+            "in1": {"k": "f", "data": "696e31", "mode": 0o600, "mtime": 10**18 + 2},
+            "in2": {"k": "l", "target": "in1", "mtime": 10**18 + 3}}})
     o = [scen.small_opts(ctx.rng) for _ in range(3)]
+    if ctx.rng.random() < 0.6:
+        for x in o:
+            x["meph"] = ctx.rng.choice([1, 2])
     steps = [{"op": "init"},
              {"op": "mktree", "path": "src", "tree": t0}, {"op": "backup", "opts": o[0]},
              {"op": "mktree", "path": "src", "tree": t1}]
@@ -23,7 +30,7 @@ def make_base(ctx):
         steps.append({"op": "backup", "opts": o[1], "plan": {"crash": ctx.rng.randrange(12, 40)}})
     else:
         steps.append({"op": "backup", "opts": o[1]})
-    steps += [{"op": "mktree", "path": "src", "tree": t2}, {"op": "snap", "path": "src"}, {"op": "backup", "opts": o[2]}]
+    steps += [{"op": "mktree", "path": "src", "tree": t2}, {"op": "snap", "path": "src"}, {"op": "walk"}, {"op": "backup", "opts": o[2]}]
     return {"steps": steps, "trees": [t0, t1, t2], "opts": o, "interrupted": interrupted}
 
 
@@ -82,8 +89,9 @@ def build_cases(ctx, nbases, flips_per_file, kinds=DAMAGE_KINDS):
             if cls == "head":
                 plans.append(("badversion", None, None))
             for kind, pos, bit in plans:
-                if cls == "tail" and kind == "delete":
-                    continue          # absence of the tail is the legal 'incomplete' state
+                if cls == "tail" and kind in ("delete", "trunc0"):
+                    continue          # absence of the tail is the legal 'incomplete' state, and so is the zero-length
+                                      # tail a kill leaves behind (only a non-empty tail closes a band)
                 cid = f"{b['id']}_{len(cases)}"
                 dmg = {"op": "damage", "file": f, "kind": kind}
                 if kind == "badversion":
@@ -114,3 +122,139 @@ def errs(res):
     if res.get("result") == "err":
         n += 1
     return n
+
+
+def is_last_hunk_of_open_band(arch, f):
+    """f is the highest-numbered index hunk of a band that has no (non-empty) tail"""
+    if classify(f) != "hunk":
+        return False
+    band = f.split("/")[0]
+    tail = arch["files"].get(band + "/BANDTAIL")
+    if tail is not None and tail.get("t") != "empty":
+        return False
+    hunks = sorted(p for p in arch["files"] if p.startswith(band + "/i/"))
+    return bool(hunks) and hunks[-1] == f
+
+
+def open_band_last_hunk_case(ctx):
+    """The directed history of the known finding (DESIGN.md F14): an interrupted version loses its last index hunk.
+    Returns (steps, damage step, restore-before, restore-after, validate-full, validate-quick) or None."""
+    def f(d, m=10**18):
+        return {"k": "f", "data": d.hex(), "mode": 0o644, "mtime": m}
+    names = ["a", "b", "c", "d", "e", "f"]
+    t0 = {"k": "d", "mode": 0o755, "mtime": 10**18, "c": {n: f(b"old-" + n.encode()) for n in names}}
+    t1 = {"k": "d", "mode": 0o755, "mtime": 10**18, "c": {n: f(b"new-" + n.encode(), 10**18 + 5) for n in names}}
+    opts = {"meph": 2, "mbs": 1000, "sfc": 0}
+    base = [{"op": "init"}, {"op": "mktree", "path": "src", "tree": t0}, {"op": "backup", "opts": opts},
+            {"op": "mktree", "path": "src", "tree": t1}]
+    cands = [{"id": f"k{c}", "steps": base + [{"op": "backup", "opts": opts, "plan": {"crash": c}}, {"op": "arch"}]} for c in range(24, 40)]
+    res = ctx.cvh_run(cands)
+    for c in cands:
+        r = res.get(c["id"])
+        if r is None:
+            continue
+        files = r[5]["arch"]["files"]
+        hunks = sorted(p for p in files if p.startswith("b0001/i/"))
+        if len(hunks) >= 2 and "b0001/BANDTAIL" not in files:
+            steps = c["steps"]
+            probe = [{"op": "restore", "band": 1, "dest": "o1"}, {"op": "validate"}, {"op": "validate", "skip": True}]
+            dmg = {"op": "damage", "file": hunks[-1], "kind": "delete"}
+            rr = ctx.cvh_run([{"id": "ref", "steps": steps + probe}, {"id": "dmg", "steps": steps + [dmg] + probe}])
+            if rr.get("ref") is None or rr.get("dmg") is None:
+                return None
+            return steps, dmg, rr["ref"][6], rr["dmg"][7], rr["dmg"][8], rr["dmg"][9]
+    return None
+
+
+def model_probe(ctx, tag, cases, info, res, every=1):
+    """L4 on damaged archives: the model's list / restore / validate / backup programs, started from the damaged state as the
+    independent reader decoded it, against the implementation's traces, outcomes, listed entries and restored contents."""
+    from . import l4
+    hs = []
+    for n, c in enumerate(cases):
+        if n % every:
+            continue
+        b, f, cls, kind, dmg = info[c["id"]]
+        r = res.get(c["id"])
+        if r is None or cls == "lock":
+            continue
+        if kind in ("bitflip", "badversion") and cls != "block":
+            continue            # still-decodable index/metadata with altered fields: outside what the typed model state can express
+        if any(isinstance(x, dict) and (x.get("panic") or x.get("timeout")) for x in r):
+            continue
+        nb = len(b["steps"])
+        after = r[nb + 1]["arch"]
+        fa = after["files"].get(f)
+        if fa is not None and cls != "block" and fa.get("t") in ("json", "hunk") and kind != "delete":
+            continue            # a truncated / overwritten file that still decodes
+        names = l4.Names()
+        scen.collect_names(names, c["steps"], r)
+        h = l4.History(c["id"], names)
+        h.check_premises = False
+        for st, rs in zip(c["steps"][:nb], r[:nb]):
+            if st["op"] in ("mktree", "walk"):
+                h.add(st, rs)
+        h.set_state_from_arch(after)
+        for st, rs in zip(c["steps"][nb + 2:], r[nb + 2:]):
+            if st["op"] in ("list", "restore", "validate", "backup", "arch"):
+                h.add(st, rs)
+        hs.append(h)
+    out = l4.evaluate(ctx, tag, hs, shards=16)
+    agreed = total = 0
+    for h in hs:
+        for desc, code in (out.get(h.cid) or []):
+            total += 1
+            if code == 0:
+                agreed += 1
+            else:
+                b, f, cls, kind, dmg = info[h.cid]
+                ctx.corr_fail("L4", f"damaged archive ({kind} of {f}): model and implementation differ at {desc}: code {code}",
+                              {"base_steps": b["steps"], "damage": dmg})
+                break
+    ctx.layer("L4-damaged-archives", agreed, total)
+
+
+def touched_paths(arch, f):
+    """apaths whose index entry lies in the damaged hunk file f, or one of whose blocks is the damaged block file f
+    (looking at every band: a stitched listing may take the entry from any of them)"""
+    cls = classify(f)
+    out = set()
+    for path, v in arch["files"].items():
+        if classify(path) != "hunk" or v.get("t") != "hunk":
+            continue
+        for e in v["v"]:
+            if cls == "hunk" and path == f:
+                out.add(e["apath"])
+            if cls == "block" and any(f.endswith("/" + a["hash"]) for a in e.get("addrs") or []):
+                out.add(e["apath"])
+    return out
+
+
+def tree_node(tree, apath):
+    node = tree
+    for part in [x for x in apath.split("/") if x]:
+        if node is None or node.get("k") != "d":
+            return None
+        node = (node.get("c") or {}).get(part)
+    return node
+
+
+def deleted_head_case(ctx):
+    """The directed history of known finding F16: the BANDHEAD of the version below an interrupted one is deleted.
+    Returns (steps, damage step, restore-before, restore-after) or None."""
+    def f(d, m=10**18):
+        return {"k": "f", "data": d.hex(), "mode": 0o644, "mtime": m}
+    t0 = {"k": "d", "mode": 0o755, "mtime": 10**18, "c": {n: f(b"old-" + n.encode()) for n in ["a", "b", "c", "d"]}}
+    t1 = {"k": "d", "mode": 0o755, "mtime": 10**18, "c": {n: f(b"new-" + n.encode(), 10**18 + 5) for n in ["a", "b", "c", "d"]}}
+    opts = {"meph": 2, "mbs": 1000, "sfc": 0}
+    steps = [{"op": "init"}, {"op": "mktree", "path": "src", "tree": t0}, {"op": "backup", "opts": opts},
+             {"op": "mktree", "path": "src", "tree": t1}, {"op": "backup", "opts": opts, "plan": {"crash": 26}}, {"op": "arch"}]
+    probe = [{"op": "restore", "band": 1, "dest": "o1"}]
+    dmg = {"op": "damage", "file": "b0000/BANDHEAD", "kind": "delete"}
+    rr = ctx.cvh_run([{"id": "ref", "steps": steps + probe}, {"id": "dmg", "steps": steps + [dmg] + probe}])
+    if rr.get("ref") is None or rr.get("dmg") is None:
+        return None
+    files = rr["ref"][5]["arch"]["files"]
+    if "b0001/BANDHEAD" not in files or "b0001/BANDTAIL" in files:
+        return None
+    return steps, dmg, rr["ref"][6], rr["dmg"][7]
